@@ -45,10 +45,12 @@ MkFile(f)  == f \notin files /\ SubSeq(f, 1, Len(f) - 1) \in dirs /\ files' = fi
 NotDangling(s) == LET c == [mpath |-> R, excluded |-> {}, limit |-> 0, ext |-> FALSE, extexcl |-> {}] IN
                   \A t \in Named(P, c, s).must : t \in InternalMods(P, c) \/ ~Anc(R, t)
 AddStmt(s) == s \notin stmts /\ s.file \in files /\ NotDangling(s) /\ stmts' = stmts \cup {s} /\ UNCHANGED <<dirs, files>>
-Next == /\ steps < MaxSteps /\ steps' = steps + 1
-        /\ \/ \E d \in DirU \ {R} : MkDir(d)
-           \/ \E f \in FileU : MkFile(f)
-           \/ \E s \in StmtU : AddStmt(s)
+\* one named action per kind of step, so that TLC's coverage report shows each of them was taken (vacuity guard)
+Tick       == steps < MaxSteps /\ steps' = steps + 1
+DoMkDir    == Tick /\ \E d \in DirU \ {R} : MkDir(d)
+DoMkFile   == Tick /\ \E f \in FileU : MkFile(f)
+DoAddStmt  == Tick /\ \E s \in StmtU : AddStmt(s)
+Next == DoMkDir \/ DoMkFile \/ DoAddStmt
 Spec == Init /\ [][Next]_vars
 
 Cfg(mp, ex, lim, ext) == [mpath |-> mp, excluded |-> ex, limit |-> lim, ext |-> ext, extexcl |-> {}]
